@@ -551,6 +551,44 @@ func ruleBrkAdjust(w *World, r *Report) {
 				})
 				if carried {
 					r.ok("BRK-ADJUST", key+" carry", w.PosOf(in), "the calls counted by the old window are carried into the new one")
+					// aged clause: only what is still in the old window is carried: the window is slid to the present
+					// before it is summed (every path from the entry to the re-allocation passes a call of slide)
+					slide := w.Method("core", "OutboundBreaker", "slide")
+					isSlide := func(x ssa.Instruction) bool {
+						c := callOf(x)
+						return c != nil && c.StaticCallee() == slide
+					}
+					// the reads of the old window: element accesses on `counts` from which the re-allocation is still ahead
+					var stale ssa.Instruction
+					nOld := 0
+					allInstrs(fn, func(x ssa.Instruction) {
+						var base ssa.Value
+						switch t := x.(type) {
+						case *ssa.Index:
+							base = t.X
+						case *ssa.IndexAddr:
+							base = t.X
+							for _, ref := range *t.Referrers() {
+								if s3, ok := ref.(*ssa.Store); ok && s3.Addr == ssa.Value(t) {
+									base = nil // a write
+								}
+							}
+						}
+						if base == nil || !isFieldLoad(base, ob, "counts") || !reachable(fn, x, in) {
+							return
+						}
+						nOld++
+						if h, _ := reach(fn, nil, func(y ssa.Instruction) bool { return y == x }, isSlide, nil); h != nil && stale == nil {
+							stale = x
+						}
+					})
+					if nOld == 0 {
+						r.exempt("BRK-ADJUST", key+" aged", w.PosOf(in), "no element read of the old window found before the re-allocation: shape not recognised, not decided")
+					} else if stale == nil {
+						r.ok("BRK-ADJUST", key+" aged", w.PosOf(in), "the old window is slid to the present before it is carried")
+					} else {
+						r.violation("BRK-ADJUST", key+" aged", w.PosOf(in), "the old window is summed as it was when it was last used: calls that aged out of it long ago are carried into the new window as if they had just happened, and an idle breaker refuses for a whole interval after an Adjust")
+					}
 				} else {
 					r.violation("BRK-ADJUST", key+" carry", w.PosOf(in), "a window of another shape starts empty: an Adjust that changes the interval forgets the calls that were counted, and `limit` more are admitted at once")
 				}
